@@ -325,6 +325,8 @@ def expected_description(lay, row):
 
 def expected_txn(lay, row, source):
     """What a faithful reader yields for a well-formed row; None when the row must be skipped."""
+    if row.get('raw') is not None:
+        return None          # a damaged line (written as given): skipped on its own
     v = expected_amount(lay, row)
     if v == 0 or not math.isfinite(v):
         return None
